@@ -163,3 +163,57 @@ def replay_hmc(seed=1):
         return True, {"case": case, "native": o, "what": what, "reproduced_in": sorted(set(h[0] for h in hits)),
                       "n_discrepancies": len(hits), "n_cases": len(cases)}
     return False, {"n_cases": len(cases), "note": "no native discrepancy in the replay batch"}
+
+
+HALF = {"kind": "half"}
+
+
+def lp_half(x):
+    if x[0] < 0 or x[0] != x[0] or x[1] != x[1]:
+        return float("nan")
+    if x[0] == 0:
+        return float("-inf")
+    return math.log(x[0]) - 0.5 * (x[0] ** 2 + x[1] ** 2)
+
+
+def replay_nan(kind, seed=1):
+    """Direct replay of C14: started inside the support of a bounded-support target, the real sampler must never sit
+    on a point whose log-density is NaN / -inf or that has non-finite coordinates."""
+    rnd = random.Random(seed)
+    cases = []
+    for k in range(60):
+        start = [[round(rnd.uniform(0.05, 1.2), 3), round(rnd.uniform(-1, 1), 3)] for _ in range(rnd.choice([1, 2, 3]))]
+        if kind == "hmc":
+            cases.append({"case": "hmc_step", "target": HALF, "positions": start, "eps": rnd.choice([0.3, 0.6, 0.9, 1.5]),
+                          "L": rnd.choice([1, 2, 4]), "seed": rnd.randrange(1, 10 ** 6), "steps": 6})
+        else:
+            e = rnd.choice([0.4, 0.8, 1.3, 2.0])
+            cases.append({"case": "nuts_step", "target": HALF, "position": start[0], "seed": rnd.randrange(1, 10 ** 6),
+                          "delta": 0.8, "adapt": [e, e, 0.0, math.log(10 * e)], "m": 5, "n_discard": 2, "steps": 6})
+    nat = run_batch(cases)
+    hits = []
+    for prof, outs in nat.items():
+        if not isinstance(outs, list):
+            continue
+        for case, o in zip(cases, outs):
+            if not isinstance(o, dict):
+                continue
+            if o.get("panic"):
+                hits.append((prof, case, o, "panic"))
+                continue
+            pts = []
+            if kind == "hmc" and "real" in o:
+                flat = [fl(x) for x in o["real"]]
+                pts = [flat[i:i + 2] for i in range(0, len(flat), 2)]
+            elif kind != "hmc":
+                pts = [[fl(x) for x in st["real_position"]] for st in o.get("steps", [])]
+            for pnt in pts:
+                v = lp_half(pnt)
+                if v != v or v == float("-inf") or any(c != c or abs(c) == float("inf") for c in pnt):
+                    hits.append((prof, case, o, "chain sits at %s whose log-density is %s" % (pnt, v)))
+                    break
+    if hits:
+        prof, case, o, what = hits[0]
+        return True, {"case": case, "native": o, "what": what, "reproduced_in": sorted(set(h[0] for h in hits)),
+                      "n_violating_cases": len(hits), "n_cases": len(cases)}
+    return False, {"n_cases": len(cases), "note": "no native violation in the replay batch"}
